@@ -276,14 +276,34 @@ func runC09Batch(c *core.Ctx, drv string, b c09Batch) {
 		in.In = append(in.In, proto.Text(s))
 	}
 	raw, _ := json.Marshal(in)
-	out := core.RunScript(drv, dir, []proto.Op{{K: "parsemany", Raw: raw}}, 300*time.Second)
+	out := core.RunScript(drv, dir, []proto.Op{{K: "parsemany", Raw: raw}}, 45*time.Second)
 	c.Count("family_"+b.family, int64(len(b.inputs)))
 	c.Count("inputs", int64(len(b.inputs)))
 	if out.Died || len(out.Res) == 0 || out.Res[0].Failed() {
 		if out.TimedOut {
-			// no logical budget was exceeded (that would have been reported by
-			// the driver): the wall clock alone decides nothing
-			c.Inconclusive("watchdog", "parse batch of family "+b.family+" exceeded the wall-clock watchdog")
+			// No logical budget was exceeded (the driver would have said so),
+			// so the loop, if there is one, has no hook inside. Isolate the
+			// input by bisection and run it ALONE with a limit about a
+			// million times what parsing takes; only if it still does not
+			// finish is it a hang (the property is about hanging). Anything
+			// else stays inconclusive.
+			guilty := b.inputs
+			for len(guilty) > 1 {
+				half := guilty[:len(guilty)/2]
+				if died, to := c09Run(drv, dir, half, 20*time.Second); to {
+					guilty = half
+				} else if died {
+					guilty = half
+				} else {
+					guilty = guilty[len(guilty)/2:]
+				}
+			}
+			if _, to := c09Run(drv, dir, guilty, 60*time.Second); to {
+				c.Violation("C09:hang", fmt.Sprintf("tokenise+parse of a %d-byte input did not finish within 60 s when run alone (family %s): %q", len(guilty[0]), b.family, clip(guilty[0], 300)),
+					map[string]interface{}{"family": b.family, "input": clip(guilty[0], 3000), "input_hex": fmt.Sprintf("%x", clip(guilty[0], 400)), "input_len": len(guilty[0])})
+			} else {
+				c.Inconclusive("watchdog", "parse batch of family "+b.family+" exceeded the wall-clock watchdog but no single input reproduces it")
+			}
 			return
 		}
 		// find the guilty input by bisection when the batch has several
@@ -350,6 +370,13 @@ func runC09Batch(c *core.Ctx, drv string, b c09Batch) {
 }
 
 func c09Dies(drv, dir string, inputs []string) bool {
+	died, to := c09Run(drv, dir, inputs, 300*time.Second)
+	return died && !to
+}
+
+// c09Run parses the inputs in a fresh driver; it reports whether the driver
+// died and whether the wall-clock limit ended it.
+func c09Run(drv, dir string, inputs []string, limit time.Duration) (died, timedOut bool) {
 	var in struct {
 		In      []proto.Text `json:"in"`
 		ScanMul int64        `json:"scanMul"`
@@ -360,6 +387,6 @@ func c09Dies(drv, dir string, inputs []string) bool {
 		in.In = append(in.In, proto.Text(s))
 	}
 	raw, _ := json.Marshal(in)
-	out := core.RunScript(drv, dir, []proto.Op{{K: "parsemany", Raw: raw}}, 300*time.Second)
-	return out.Died && !out.TimedOut
+	out := core.RunScript(drv, dir, []proto.Op{{K: "parsemany", Raw: raw}}, limit)
+	return out.Died, out.TimedOut
 }
